@@ -281,7 +281,9 @@ func (w *World) VerifyFunc(key string) *Unit {
 			label = fmt.Sprint(i + 1)
 		}
 		g := env.compileBool(c.Expr)
-		vc.oblige(key, "ensures", label, clauseProps(c, props), retCond, g)
+		if o := vc.oblige(key, "ensures", label, clauseProps(c, props), retCond, g); o != nil {
+			o.Group = c.Group
+		}
 	}
 	// frame: pointer parameters may change only where `modifies` says
 	for _, p := range fn.Params {
@@ -418,11 +420,11 @@ func (w *World) addAxioms(vc *VC) {
 			if p := w.PkgByPath[ax.Pkg]; p != nil {
 				env.pkg = p.Types
 			}
-			saved := vc.facts
-			vc.facts = nil
+			saved, savedG := vc.facts, vc.fgroup
+			vc.facts, vc.fgroup = nil, nil
 			t := env.compileBool(ax.Expr)
 			extra := vc.facts
-			vc.facts = saved
+			vc.facts, vc.fgroup = saved, savedG
 			vc.axioms = append(vc.axioms, extra...)
 			vc.axioms = append(vc.axioms, t)
 			vc.Assumed["axiom: "+ax.Name] = true
